@@ -1,4 +1,5 @@
 # C07 — condition variables never lose a notification (structural part; DESIGN.md §5 C07)
+import re
 from engine.core import AnalysisBroken, P, T, callee_of, callee_short, cond_atoms, loc_of, strip, forward, block_path, is_moved, walk
 from engine.kinds import (LockFlow, FactFlow, precedes_on_all_paths, eval_tree, Unknown, return_set, reaching_init)
 from .common import facts, lib, driver, local_init
